@@ -63,7 +63,7 @@ contract("func_adl.ast.func_adl_ast_utils.FuncADLNodeVisitor.visit", assumed=Tru
               "the remaining ones are assumed to satisfy it")
 
 contract("func_adl.ast.func_adl_ast_utils.FuncADLNodeVisitor.visit_Call", assumed=True,
-         params=dict(self=QV, node=Ref), result=TOpt(Ref), requires=CVC_REQUIRES, modifies=CVC_MODIFIES, may_raise=["Exception"],
+         params=dict(self=QV, node=Ref), result=REP, requires=CVC_REQUIRES, modifies=CVC_MODIFIES, may_raise=["Exception"],
          strict=False, ensures=CVC_ENSURES)
 
 contract("func_adl.ast.func_adl_ast_utils.FuncADLNodeVisitor.generic_visit", assumed=True,
